@@ -74,7 +74,8 @@ def run_batch(job):
                 cls = "builtin"
             else:
                 cls = "none"
-            sysid = 0x70000 + mid
+            # system bytes: mostly distinct ordinary values, every 7th message a boundary value of the 32-bit range
+            sysid = [0, 1, 0x7FFFFFFF, 0x80000000, 0xFFFFFFFF][mid // 7 % 5] if mid % 7 == 0 else 0x70000 + mid
             frame = hsmsrun.data_frame(sfn, fn, w, sysid, body)
             ep.link.feed(frame)
             ok, why = s.run_until(lambda: False, max_dt=0.5)   # lets sender threads of side effects run
